@@ -26,28 +26,8 @@ def db : UniDb := ⟨fun nm =>
   else if nm = asciiStr "QUOTATION MARK" then some 0x22
   else none⟩
 
-/-- the registered test commands of the harness: every signature shape and every convertible parameter type -/
-def choiceOpts : List Str := [asciiStr "a", asciiStr "b c", asciiStr "", asciiStr "'q'"]
-
-def cmds (name : Str) : Option SigD :=
-  if name = asciiStr "t.s" then some ⟨[], [], some .str⟩
-  else if name = asciiStr "t.v" then some ⟨[], [], some .verbatim⟩
-  else if name = asciiStr "t.one" then some ⟨[.str], [], none⟩
-  else if name = asciiStr "t.two" then some ⟨[.str, .verbatim], [], none⟩
-  else if name = asciiStr "t.mix" then some ⟨[.verbatim], [], some .str⟩
-  else if name = asciiStr "t.none" then some ⟨[], [], none⟩
-  else if name = asciiStr "t.i" then some ⟨[], [], some .int⟩
-  else if name = asciiStr "t.b" then some ⟨[], [], some .bool⟩
-  else if name = asciiStr "t.p" then some ⟨[], [], some .path⟩
-  else if name = asciiStr "t.ibp" then some ⟨[.int, .bool, .path], [], none⟩
-  else if name = asciiStr "t.q" then some ⟨[], [], some .strSeq⟩
-  else if name = asciiStr "t.c" then some ⟨[.cutSpec], [], none⟩
-  else if name = asciiStr "t.m" then some ⟨[], [], some .marker⟩
-  else if name = asciiStr "t.ch" then some ⟨[.choice choiceOpts], [], some .str⟩
-  else if name = asciiStr "t.opts" then some ⟨[], [], none⟩
-  else if name = asciiStr "t.d" then some ⟨[.str, .str, .int], [.s (asciiStr "dflt"), .i 7], none⟩
-  else if name = asciiStr "t.dr" then some ⟨[.verbatim, .bool], [.b true], some .str⟩
-  else none
+/-- the registered test commands: `MitmVerif.C45.harnessCmds` (in the model file, so that theorems can speak about it) -/
+def cmds : Str → Option SigD := harnessCmds
 
 /-- the process environment the harness fixes: HOME=/h/me/ and the one password-database entry it relies on -/
 def env : Env := ⟨some (asciiStr "/h/me/"), fun n => if n = asciiStr "root" then some (asciiStr "/root") else none⟩
@@ -69,6 +49,13 @@ def stepLine (line : String) : String :=
       | .unknown => "unknown"
       | .badArg => "badarg"
       | .call name args => " ".intercalate ("call" :: encodeStr name :: toString args.length :: args.map showTVal)
+    | none => "bad-op"
+  | ["refsplit", s] =>
+    -- the SPECIFICATION side of the splitting clause (compared with the oracle's Python `ref_split`)
+    match strOf s with
+    | some l =>
+      let show_ := fun (ps : List Str) => toString ps.length :: ps.map encodeStr
+      " ".intercalate ((if noAdjacent (lex l) then "1" else "0") :: (show_ (refSplit l) ++ show_ (mergeAdjacent (lex l))))
     | none => "bad-op"
   | ["quote", s] =>
     match strOf s with
